@@ -99,8 +99,11 @@ def run(scn, ch):
         opts = dict(graceful_timeout=G, warmup_delay=scn.w, singleton=scn.singleton)
         if scn.max_age:
             opts.update(max_age=scn.max_age, max_age_variance=1)
-        world = World(ch, [WSpec('a', numprocesses=scn.n0, behaviours=pattern(scn.pat), **opts)],
+        # 'z' is a bystander watcher: state hoisted to a shared scope would show up as a disturbance of z
+        world = World(ch, [WSpec('a', numprocesses=scn.n0, behaviours=pattern(scn.pat), **opts),
+                           WSpec('z', numprocesses=1, graceful_timeout=G)],
                       check_delay=scn.p.get('tick', 1.0))
+        world.deaths_only = ('a',)
         if scn.max_age:
             world.randint_hook = lambda a, b: (a, b)[world.ex.choose('randint', ['min', 'max'], cost=1)]
         return world
@@ -122,6 +125,12 @@ def run(scn, ch):
             res.check('C01.count_eq_target', n == w.numprocesses or any(p.stopping for p in w.processes.values()),
                       lambda: 'live=%d target=%d (max_age world)' % (n, w.numprocesses), where='watcher.manage_processes')
             return
+        lz = live(world, 'z')
+        zsig = [x for x in world.kernel.signal_log if x[3] != 'os.kill' and world.kernel.procs[x[1]].watcher == 'z']
+        res.check('C01.bystander_untouched', len(lz) == 1 and not zsig and world.watcher('z').numprocesses == 1,
+                  lambda: 'bystander watcher z: %d live workers, signals %s, numprocesses %s (after %s)'
+                  % (len(lz), zsig, world.watcher('z').numprocesses, [e.label for _, e in win.applied]),
+                  where='watcher', nontrivial=bool(win.applied))
         lv = live(world, 'a')
         n = len(lv)
         target = numprocesses_of(world, 'a')           # the daemon's own count of listed processes
